@@ -222,7 +222,7 @@ fn build(pkg: &Pkg, release: bool, v: &Variation, slot: &Path) -> BuildOut {
         args.push("--release".into());
     }
     let spec = Spec {
-        exe: format!("{TOOLS_DIR}/vforc"),
+        exe: format!("{}/vforc", tools_dir()),
         args,
         cwd: dir.clone(),
         home,
